@@ -751,6 +751,22 @@ func (w *VerifC05Writer) Comment(text string) {
 	w.impl.WriteString("note " + text + "\n")
 }
 
+// Count records how many maximal schedules the explorer found for a scenario; the model enumerates its own schedule tree
+// and must find the same number (when the enumeration was not cut short)
+func (w *VerifC05Writer) Count(scn *VerifC05Scn, n int, truncated bool) {
+	c := *scn
+	c.Op = "count"
+	c.Sched = nil
+	b, _ := json.Marshal(struct {
+		VerifC05Scn
+		N         int  `json:"n"`
+		Truncated bool `json:"truncated"`
+	}{c, n, truncated})
+	w.ops.Write(b)
+	w.ops.WriteByte('\n')
+	w.impl.WriteString(fmt.Sprintf("count scenario=%s threads=%d schedules=%d truncated=%v\n", scn.Name, len(scn.Threads), n, truncated))
+}
+
 // Raw writes an arbitrary op with its implementation line
 func (w *VerifC05Writer) Raw(op map[string]interface{}, line string) {
 	b, _ := json.Marshal(op)
